@@ -149,6 +149,13 @@ func hostWithoutPort(u *url.URL) string {
 	return strings.TrimSuffix(u.Host, ":")
 }
 
+// validHostColons reports whether the only colon of a host that is not an IP literal is the one before the port
+// (net/url accepts "h::" as the host "h:" with an empty port).
+func validHostColons(u *url.URL) bool {
+	h := hostWithoutPort(u)
+	return strings.HasPrefix(h, "[") || !strings.Contains(h, ":")
+}
+
 func clearURLPort(u *url.URL) {
 	u.Host = hostWithoutPort(u)
 }
@@ -192,6 +199,9 @@ func (m *urlModule) parseURL(s string, isBase bool) *url.URL {
 // normalizeURL brings a parsed (or resolved) URL into its canonical form; s is the input reported in errors.
 func (m *urlModule) normalizeURL(u *url.URL, s string) {
 	if isSpecialNetProtocol(u.Scheme) && u.Host == "" && u.Path == "" {
+		panic(m.newInvalidURLError(InvalidURL, s))
+	}
+	if !validHostColons(u) {
 		panic(m.newInvalidURLError(InvalidURL, s))
 	}
 	if portStr := u.Port(); portStr != "" {
@@ -254,6 +264,9 @@ func (m *urlModule) fixURL(u *url.URL) {
 func validHost(scheme, host string) bool {
 	p, err := url.ParseRequestURI(scheme + "://" + host)
 	if err != nil || p.Host != host || p.User != nil || p.Path != "" || p.RawQuery != "" || p.Fragment != "" {
+		return false
+	}
+	if !validHostColons(p) {
 		return false
 	}
 	if isSpecialNetProtocol(scheme) {
